@@ -20,8 +20,18 @@ def setup():
     """MANIFEST.setup_cmd: regenerate facts, build every proof file and the driver from scratch."""
     from tools import extract_facts
     extract_facts.main()
-    p = subprocess.run(["lake", "build"], cwd=LEAN)
-    return p.returncode
+    from tools import gen_root
+    rc = subprocess.run(["lake", "build"], cwd=LEAN).returncode
+    # one executable per driver; a driver that does not build must not stop the others
+    for name, _ in gen_root.drivers():
+        r = subprocess.run(["lake", "build", f"u3-{name}"], cwd=LEAN).returncode
+        rc = rc or r
+    if rc:
+        # build every property file on its own so that one broken file leaves the others usable
+        for pid in ALL:
+            if os.path.exists(core.prop_file(pid)):
+                subprocess.run(["lake", "build", f"U3.Props.{pid}"], cwd=LEAN, stdout=subprocess.DEVNULL, stderr=subprocess.DEVNULL)
+    return 0 if rc == 0 else 1
 
 
 def write_json(path, obj):
@@ -51,10 +61,12 @@ def run_check(pid: str, tier: str, seed: int, replay: str | None = None) -> int:
     facts = extract_facts.main(quiet=True)
 
     # 2. proofs
-    build = core.lean_build(pid)
+    models = list(getattr(prop, "models", None) or ([prop.model] if prop.model else []))
+    build = core.lean_build(pid, models)
     names = build["obligations"]
     discharged = [n for n in names if n not in build["failed"]]
-    if not os.path.exists(core.BIN):
+    model_usable = all(os.path.exists(core.model_bin(m)) for m in models)
+    if not model_usable:
         print(f"ERROR: model driver not built:\n{build['log'][-2000:]}")
     # 3. audit
     audit = {"ok": False, "axioms": {}, "bad_axioms": {}, "bad_tokens": [], "missing": []}
@@ -72,7 +84,6 @@ def run_check(pid: str, tier: str, seed: int, replay: str | None = None) -> int:
 
     # 4./5./6. corpus, correspondence, oracle
     total = core.ShardResult()
-    model_usable = os.path.exists(core.BIN)
     if replay:
         data = json.load(open(replay))
         cases = [data["case"]] if "case" in data else []
@@ -162,7 +173,7 @@ def run_check(pid: str, tier: str, seed: int, replay: str | None = None) -> int:
         "checker_cmd": f"cd lean && lake build U3.Props.{pid} && lake env lean <#print axioms for each theorem>"
                        + (f" && lake env leanchecker U3.Props.{pid}" if tier == "thorough" else ""),
         "trusted_base": ["Lean 4.33.0 kernel; axioms propext, Classical.choice, Quot.sound only",
-                         "Lean compiler/runtime executing the model in u3model",
+                         "Lean compiler/runtime executing the model in the u3-<driver> executables",
                          "harness generators, canonicalisation and tools/extract_facts.py"] + list(prop.trusted),
         "theorems": names,
         "undischarged": [x for x in names if x not in discharged],
